@@ -238,7 +238,9 @@ def _run(case, rec):
             return
         lam = None  # the factor applied depends on miniball's answer; require *a* uniform positive factor
     else:
-        rec.close("read_back", call(getattr, obj, prop), target, 1e-12 * target + 1e-300, sig)
+        # the getter re-measures the rescaled shape where it stands: its noise is a few hundred eps of the coordinates
+        noise = 1e3 * 2.0**-52 * (maxnorm(V1) if V1 is not None else float(np.linalg.norm(C1))) ** d
+        rec.close("read_back", call(getattr, obj, prop), target, 1e-12 * target + noise + 1e-300, sig)
     # similarity of the defining data
     if V0 is not None:
         a0, a1 = V0 - V0[0], V1 - V1[0]
